@@ -12,6 +12,9 @@ package main
 // compared with the JSON nodes: number, order, type and primitive values.
 
 import (
+	apb "github.com/google/fhir/go/proto/google/fhir/proto/annotations_go_proto"
+	"google.golang.org/protobuf/reflect/protoregistry"
+	ppb "github.com/google/fhir/go/proto/google/fhir/proto/r4/core/resources/patient_go_proto"
 	"bytes"
 	"encoding/json"
 	"errors"
@@ -621,6 +624,81 @@ type compiled struct {
 
 func runC02(c *Ctx) {
 	c.meta.Rule = "layer A: every message of generated resources (all 146 R4 types; quick 1 per type, thorough 4) x {each element's JSON name (sampled), snake and capitalised forms, value, reference, valueUs/precision/timezone, names of other types, bogus names}, single messages and runs of 2-3 sibling messages, plus hand-built wrappers (empty ContainedResource, unset choice); layer B: every dotted path of the jsonformat rendering (capped per resource, sampled beyond) with and without root type name, random indexers at any step, foreign root type names, a bogus name appended; non-trivial = a step or path yielding at least one element; distinct by line / by (type, path)"
+	// ---- every member of Reference's oneof: a typed reference (with and without a version) reads
+	// back as Type/id[/_history/v]
+	{
+		refDesc := (&dtpb.Reference{}).ProtoReflect().Descriptor()
+		members := refDesc.Oneofs().ByName("reference").Fields()
+		readRef := fhirpath.MustCompile("Patient.generalPractitioner.reference")
+		for i := 0; i < members.Len(); i++ {
+			fd := members.Get(i)
+			if fd.Message() == nil || fd.Message().Name() != "ReferenceId" {
+				continue
+			}
+			for _, hist := range []string{"", "7"} {
+				ref := &dtpb.Reference{}
+				rid := &dtpb.ReferenceId{Value: "a-1.b"}
+				if hist != "" {
+					rid.History = &dtpb.Id{Value: hist}
+				}
+				ref.ProtoReflect().Set(fd, protoreflect.ValueOfMessage(rid.ProtoReflect()))
+				want, _ := expectedRefString(ref)
+				o := safeEval(func() (system.Collection, error) {
+					return readRef.Evaluate([]fhir.Resource{&ppb.Patient{GeneralPractitioner: []*dtpb.Reference{ref}}})
+				})
+				got := canonOutcome(o, nil)
+				if o.Err == nil && len(o.Coll) == 1 {
+					if s, ok := o.Coll[0].(*dtpb.String); ok {
+						got = s.GetValue()
+					}
+				}
+				c.Observe("typed-reference "+string(fd.Name())+" "+hist, true)
+				c.Law(got == want, "C02/reference-string", "typed references read back as Type/id[/_history/v], untyped ones verbatim, fragments as #id", "reference of a typed reference set through "+string(fd.Name())+" (want "+want+")", got)
+			}
+		}
+	}
+	// ---- every enumerated code of every R4 code-valued message: its System value is the FHIR code
+	// (the original-code annotation, or the lower-kebab form of the enum name) — for every value of
+	// every such message, whatever was rendered before
+	{
+		var codeTypes []protoreflect.MessageType
+		protoregistry.GlobalTypes.RangeMessages(func(mt protoreflect.MessageType) bool {
+			d := mt.Descriptor()
+			if strings.HasPrefix(string(d.FullName()), "google.fhir.r4.core.") {
+				if f := d.Fields().ByName("value"); f != nil && f.Kind() == protoreflect.EnumKind {
+					codeTypes = append(codeTypes, mt)
+				}
+			}
+			return true
+		})
+		sort.Slice(codeTypes, func(i, j int) bool { return codeTypes[i].Descriptor().FullName() < codeTypes[j].Descriptor().FullName() })
+		n := 0
+		for _, mt := range codeTypes {
+			f := mt.Descriptor().Fields().ByName("value")
+			vals := f.Enum().Values()
+			for i := 0; i < vals.Len(); i++ {
+				ev := vals.Get(i)
+				if ev.Number() == 0 {
+					continue
+				}
+				msg := mt.New()
+				msg.Set(f, protoreflect.ValueOfEnum(ev.Number()))
+				want := strings.ReplaceAll(strings.ToLower(string(ev.Name())), "_", "-")
+				if orig, _ := proto.GetExtension(ev.Options(), apb.E_FhirOriginalCode).(string); orig != "" {
+					want = orig
+				}
+				got := "?"
+				if v, err := system.From(msg.Interface()); err == nil {
+					got = fmt.Sprint(v)
+				} else {
+					got = "error: " + err.Error()
+				}
+				n++
+				c.Law(got == want, "C02/code-value", "an enumerated code reads as its FHIR code, whatever was read before", string(mt.Descriptor().FullName())+" "+string(ev.Name()), got+" vs "+want)
+			}
+		}
+		c.Observe(fmt.Sprintf("enumerated codes of %d code types: %d values", len(codeTypes), n), true)
+	}
 	types := resourceNames()
 	per := 1
 	if c.thorough {
